@@ -86,6 +86,8 @@ def check(d, props="all"):
     try:
         rc, out = sh("git apply --3way %s && git reset -q" % os.path.join(d, "patch.diff"), cwd=REPO)
         if rc != 0:
+            # conflict with later commits: restore the (clean, committed) tree
+            sh("git reset -q --hard HEAD && git clean -fdq src", cwd=REPO)
             return {"applies_to_repo": False, "out": out[-400:]}
         rc, out = sh("%s -prop %s -tier quick -repo %s -evidence %s -known %s/known_findings.json" % (os.environ.get("VERIF_BIN", VERIF + "/bin/anonverif"), props, REPO, ev, VERIF))
         fired = []
